@@ -303,6 +303,16 @@ def proj_fetch(atts):
     return out
 
 
+def name_escapes(n):
+    """Does a mailbox name, read as a path below the mail directory (one
+    leading '/' being the namespace prefix), leave it or denote it?"""
+    if not isinstance(n, str) or n == "" or n.upper() == "INBOX":
+        return False
+    p = os.path.normpath(n)
+    rel = p[1:] if p[0] == "/" else p
+    return rel in ("", ".", "..") or rel[0] == "/" or rel.startswith("../")
+
+
 def compare(ast, cmd, last_literal):
     """List of (field, ref, real) differences between the reference AST and
     the real parse result."""
@@ -318,11 +328,19 @@ def compare(ast, cmd, last_literal):
     c = ast["cmd"]
 
     def mbox(field, ref, real):
-        if ref == "INBOX":
-            if real != "inbox":
-                diffs.append((field, ref, real))
-        elif real != ref:
-            diffs.append((field + (":normpath" if ref != "" and real == os.path.normpath(ref) else ""), ref, real))
+        # the server's namespace convention: one leading '/' (the hierarchy
+        # delimiter used as prefix) denotes the same mailbox as the name
+        # without it, and the parser hands on the latter
+        def unprefixed(n):
+            return n[1:] if isinstance(n, str) and len(n) > 1 and n[0] == "/" and n[1] != "/" else n
+
+        for r in (ref, unprefixed(ref)):
+            if (r.upper() == "INBOX" and real == "inbox") or real == r:
+                return
+        if ref != "" and real in (os.path.normpath(ref), unprefixed(os.path.normpath(ref))):
+            diffs.append((field + ":normpath", ref, real))
+        else:
+            diffs.append((field, ref, real))
 
     if c in ("select", "examine", "create", "delete", "subscribe", "unsubscribe", "status", "append", "copy", "move"):
         mbox("mailbox", ast["mailbox"], getattr(cmd, "mailbox_name", None))
@@ -401,11 +419,13 @@ def evaluate(text, budget=0.5):
     t0 = time.perf_counter()
     cmd = Probe(text)
     exc = None
+    bad_text = ""
     try:
         cmd.parse()
         accepted = True
     except BadCommand as e:
         accepted = False
+        bad_text = str(e)
     except BaseException as e:  # noqa: B036
         accepted = False
         exc = e
@@ -460,6 +480,11 @@ def evaluate(text, budget=0.5):
                 finally:
                     refparse.ATOM_SPECIALS = old_sp
             res.update(kind="accepts-non-sentence", mech=mech, detail=f"{ref_err}")
+        return res
+    if ast is not None and not accepted and "outside of the mail directory" in bad_text and any(name_escapes(ast.get(f)) for f in ("mailbox", "src", "dst")):
+        # a grammatical name that leaves the mail directory must be refused (C09):
+        # refusing it with BAD at parse time is not a parsing defect
+        res.update(kind=None, refused_escaping_name=True)
         return res
     if ast is not None and not accepted:
         res.update(kind="rejects-sentence", detail="reference reads it as " + str({k: v for k, v in ast.items() if k != "message"})[:200])
@@ -546,6 +571,8 @@ def run_shard(spec):
         counts["inputs"] += 1
         counts["origin:" + origin.split(":")[0]] += 1
         counts[("sentence" if ev["sentence"] else "non-sentence") + "/" + ("accepted" if ev["accepted"] else "rejected")] += 1
+        if ev.get("refused_escaping_name"):
+            counts["sentence_refused_for_name_outside_mail_directory"] += 1
         if origin == "sentence" and not ev["sentence"]:
             counts["generator_vs_reference_disagree"] += 1
             cases.append(Case.make("selftest:" + common.h(text), INCONCLUSIVE, spec=dict(spec, only=text_in), reason="generated sentence rejected by the reference reader: " + text_in[:120]))
